@@ -205,8 +205,8 @@ def ext_cases(ctx, n_q, n_t):
     return cases
 
 
-def ext_records(ctx, n_q, n_t):
-    cases = ext_cases(ctx, n_q, n_t)
+def ext_records(ctx, n_q, n_t, cases=None):
+    cases = cases if cases is not None else ext_cases(ctx, n_q, n_t)
     recs = V.run_harness(ctx, "problems", cases)
     usable, skipped, panics, refused = [], {}, [], 0
     seen = set()
@@ -287,6 +287,15 @@ def run_C02(ctx):
 
 
 # ------------------------------------------------------------------------------------------------ C19
+# tasks judged ONLY for agreement of the families (their vocabulary has the clash between a symbol and a 0-ary predicate that anthem
+# resolves by renaming - C02's oracle leaves such vocabularies to C09 / C12): whatever name a symbol gets, it must get it in every family
+C19_HAND = [
+    {"left": "s :- r. q.", "right": "s :- r, a. s :- r, not a. q :- a < a1.", "ug": "input: r/0. input: a/0. output: s/0. output: q/0."},
+    {"left": "s :- r. q :- b1 < b.", "right": "s :- r, not not b. s :- r, not b. q :- b1 < b, not r. q :- b1 < b, r.", "ug": "input: r/0. input: b/0. output: s/0. output: q/0."},
+    {"left": "p(X) :- q(X), X != a.", "right": "p(X) :- q(X), X != a, a. p(X) :- q(X), X != a, not a.", "ug": "input: q/1. input: a/0. output: p/1."},
+]
+
+
 def run_C19(ctx):
     V.build()
     q = ctx.quick()
@@ -300,6 +309,9 @@ def run_C19(ctx):
     orig_quick = ctx.tier
     s_cases, s_usable, s_skipped, s_panics = strong_records(ctx, 45, 110)
     e_cases, e_usable, e_skipped, e_panics, refused = ext_records(ctx, 45, 160)
+    hc = [dict(h, id=f"c19h{i}", task="external", flagsets=ext_flagsets() + ext_flagsets("forward")) for i, h in enumerate(C19_HAND)]
+    _, h_usable, _, h_panics, _ = ext_records(ctx, 0, 0, cases=hc)
+    e_panics = e_panics + h_panics
     if q:
         # re-run the harness with the full families for the usable cases
         allS, allE = flagsets(), ext_flagsets()
@@ -324,6 +336,7 @@ def run_C19(ctx):
                 usable.append(r)
     else:
         usable = s_usable + e_usable
+    usable = h_usable + usable
     verdicts = V.tlc_validate(ctx, "TraceSem", usable, {"VERIF_HTCAP": 5 if q else 6, "VERIF_CLCAP": 9 if q else 10})
     stats, violations = V.collect(verdicts, usable, "C19")
     for p in s_panics + e_panics:
